@@ -1328,7 +1328,15 @@ def ok_payload(t, tag="Ok/Some"):
         # combinators whose Ok/Some payload is determined by their receiver's payload
         alts2 = []
         for a in alts:
-            if a[0] == "call" and a[1] in ("std::option::Option::ok_or", "std::option::Option::ok_or_else", "std::result::Result::map_err", "std::result::Result::ok", "std::result::Result::or_else", "std::option::Option::filter", "std::option::Option::take") and a[2]:
+            if a[0] == "call" and a[1] == "std::result::Result::or_else" and len(a[2]) == 2 and a[2][1][0] == "closure":
+                # x.or_else(|e| Err(f(e))) keeps the payload of x; a closure that can answer Ok(..) adds its own
+                r_ = _closure_on(a[2][1], ("payload", a[2][0], "Err"))
+                alts_r = (r_[1] if r_[0] == "phi" else (r_,)) if r_ is not None else ()
+                if alts_r and all(x_[0] == "agg" and x_[2] == "Err" for x_ in alts_r):
+                    alts2.append(("__payload_of__", a[2][0]))
+                else:
+                    alts2.append(a)
+            elif a[0] == "call" and a[1] in ("std::option::Option::ok_or", "std::option::Option::ok_or_else", "std::result::Result::map_err", "std::result::Result::ok", "std::option::Option::filter", "std::option::Option::take") and a[2]:
                 alts2.append(("__payload_of__", a[2][0]))
             elif a[0] == "call" and a[1] == "std::option::Option::transpose" and a[2] and a[2][0][0] == "agg" and a[2][0][2] in ("Some", "None"):
                 # Some(r).transpose()? == Some(r?) ; None.transpose()? == None
